@@ -249,9 +249,90 @@ int main(int argc, char** argv) {
   fao.group = "TAo";
   fao.rule = "3 threads, each looking up members of its OWN text through GetOnDemand / ParseOnDemand (plain and escaped keys, hits and misses), every ordered pair of the two on-demand operations x rounds, under TSan; results equal to the sequential run";
 
+  // documents of several threads over ONE locked pool: every Parse path (success, failure early / late, ParseOnDemand,
+  // ParseSchema, mutation) goes through the shared allocator; anything it touches without the lock is a race
+  vr::Family fp;
+  fp.name = "TP_documents_over_shared_locked_pool";
+  fp.count = (uint64_t)rounds * 6;
+  fp.chunk = 1;
+  fp.group = "TP";
+  fp.rule = "built with SONIC_LOCKED_ALLOCATOR: 2-4 threads, each running 40 operations on its OWN documents that all sit on ONE shared pool: Parse of valid texts, of texts failing early / late (truncated literal, truncated object, garbage after a complete container), ParseOnDemand hit / miss, ParseSchema, AddMember / PushBack growth, CopyFrom; every successful result must read back intact after all threads finished";
+
   vr::CheckFn check = [&](const vr::Family& f, uint64_t idx, vr::Ctx& ctx) {
     ctx.eval();
     ctx.nontriv();
+    if (f.name[1] == 'P') {
+#ifdef SONIC_LOCKED_ALLOCATOR
+      const int T = 2 + (int)(idx % 3);
+      const int variant = (int)((idx / 3) % 2);
+      if (ctx.want_sample) ctx.sample(std::to_string(T) + " threads, variant " + std::to_string(variant));
+      static const char* kValid[3] = {"{\"a\":[1,2],\"b\":\"s\"}", "[[3],\"tt\",{\"k\":4}]", "{\"k\":{\"x\":[true,null]},\"m\":\"0123456789012345678901234567890123456789\"}"};
+      static const char* kBad[4] = {"[1, 2, tru", "{\"a\":", "nul", "{\"a\":[1,2,{\"b\":[3]}],\"c\":x}"};
+      MemoryPoolAllocator<> pool(variant ? 256 : 4096);
+      Barrier bar(T);
+      std::vector<std::vector<std::unique_ptr<Document>>> docs(T);
+      std::vector<std::vector<std::string>> want(T);
+      std::vector<std::thread> th;
+      for (int t = 0; t < T; t++)
+        th.emplace_back([&, t] {
+          bar.wait();
+          for (int k = 0; k < 40; k++) {
+            std::unique_ptr<Document> d(new Document(&pool));
+            std::string w;
+            switch ((k + t) % 8) {
+              case 0: case 1: case 2: {
+                const char* v = kValid[(k + t) % 3];
+                d->Parse(v, std::strlen(v));
+                w = v;
+                break;
+              }
+              case 3: case 4: {
+                const char* b = kBad[(k / 2 + t) % 4];
+                d->Parse(b, std::strlen(b));
+                w = "";
+                // the same document object is used again after the failure
+                if (k % 3 == 0) {
+                  d->Parse(kValid[1], std::strlen(kValid[1]));
+                  w = kValid[1];
+                }
+                break;
+              }
+              case 5: {
+                d->ParseOnDemand(kValid[0], std::strlen(kValid[0]), JsonPointer({JsonPointerNode(k % 2 ? "a" : "zz")}));
+                w = k % 2 ? "[1,2]" : "";
+                break;
+              }
+              case 6: {
+                d->Parse("{\"a\":null,\"b\":1}", 16);
+                d->ParseSchema(kValid[0], std::strlen(kValid[0]));
+                w = kValid[0];
+                break;
+              }
+              default: {
+                d->SetObject();
+                for (int i = 0; i < 5; i++) d->AddMember("k" + std::to_string(i), Node(i), d->GetAllocator());
+                w = "{\"k0\":0,\"k1\":1,\"k2\":2,\"k3\":3,\"k4\":4}";
+                break;
+              }
+            }
+            docs[t].push_back(std::move(d));
+            want[t].push_back(w);
+          }
+        });
+      for (auto& x : th) x.join();
+      for (int t = 0; t < T; t++)
+        for (size_t k = 0; k < docs[t].size(); k++) {
+          const Document& d = *docs[t][k];
+          if (want[t][k].empty()) {
+            if (!d.HasParseError() || !d.IsNull()) ctx.violation("observation", "tsan_pool_documents_error_state", "P", "thread %d op %zu: a rejected parse left error=%d isnull=%d", t, k, (int)d.GetParseError(), (int)d.IsNull());
+          } else if (d.HasParseError() || d.Dump() != want[t][k])
+            ctx.violation("observation", "tsan_pool_documents_disturbed", "P", "thread %d op %zu: document reads back as %s, expected %s", t, k, d.HasParseError() ? "(parse error)" : d.Dump().substr(0, 100).c_str(), want[t][k].c_str());
+        }
+#else
+      ctx.skip();
+#endif
+      return;
+    }
     if (f.name[1] == 'Q') {
       const unsigned n = (unsigned)(idx % 100) + 1, al = (unsigned)(idx / 100);
       static const unsigned offs[4] = {0, 1, 17, 33};
@@ -410,14 +491,14 @@ int main(int argc, char** argv) {
   };
   std::vector<vr::Family> fams;
 #ifdef SONIC_LOCKED_ALLOCATOR
-  fams = {fc};
+  fams = {fc, fp};
 #else
   fams = {fa, fb, fbm, fq};
   if (args.get("only") == fao.name) fams = {fao};
   if (args.get("only") == fq.name) fams = {fq};
 #endif
   if (args.replay) {
-    std::vector<vr::Family> all = {fa, fb, fbm, fc, fao, fq};
+    std::vector<vr::Family> all = {fa, fb, fbm, fc, fao, fq, fp};
     return R.replay_one(all, check);
   }
   for (auto& f : fams) R.run(f, check);
